@@ -186,6 +186,39 @@ def run_random_case(ctx, kind_, idx):
                 if j - i + 1 < m_:
                     ctx.nontriv("rnd", idx)
                 return
+            if mode == "weaver" and kind_ != "huge" and rng.integers(0, 8) == 0:
+                # float64 abscissae beyond 2**53 (ticks of a fine clock) held in a STRIDED view - one column of a table -
+                # and cut with exact integer bounds one tick beside a sample: float64 would round such a bound onto the
+                # sample.  The object's working series (the caller's view) and its reference (a contiguous copy) must
+                # both be cut where exact comparison puts the bounds
+                m_ = max(len(x), 6)
+                gap_ = float(rng.choice([256.0, 1024.0, 4096.0]))
+                xf = 2.0 ** 60 + gap_ * np.cumsum(rng.integers(1, 4, m_)).astype(float)
+                table = np.empty((m_, 2))
+                table[:, 0], table[:, 1] = xf, np.resize(y, m_)
+                if rng.integers(0, 2):
+                    wv = Weaver(table[:, 0], table[:, 1])
+                else:
+                    wv = Weaver.from_2d_array(table) if hasattr(Weaver, "from_2d_array") else Weaver(table[:, 0], table[:, 1])
+                i0_, i1_ = sorted(int(v) for v in rng.choice(np.arange(1, m_ - 1), size=2, replace=False))
+                l = int(xf[i0_]) + int(rng.choice([-1, 1, 0]))
+                r = int(xf[i1_]) + int(rng.choice([-1, 1, 0]))
+                info.update({"x_storage": "strided float64 beyond 2**53", "left": l, "right": r, "m": m_})
+                wv.truncate_by_value(l, r)
+                ctx.judged()
+                ctx.monitor("c11:weaver_truncate")
+                xi = [int(v) for v in xf]
+                i, j, _a, _b = D.truncate_bounds(xi, l, r, False, False)
+                gw, gr = wv.get()[0], wv.get_reference()[0]
+                if [int(v) for v in gw] != xi[i:j + 1]:
+                    ctx.violation("weaver_truncate_working", cid, {"got_x": [int(v) for v in gw], "want_x": xi[i:j + 1], "case": info})
+                    return
+                if [int(v) for v in gr] != xi[i:j + 1]:
+                    ctx.violation("weaver_truncate_reference", cid, {"got_x": [int(v) for v in gr], "want_x": xi[i:j + 1], "case": info})
+                    return
+                if j - i + 1 < m_:
+                    ctx.nontriv("rnd", idx)
+                return
             if mode == "function":
                 narrow = None
                 if rng.integers(0, 10) == 0 and kind_ != "huge":
